@@ -264,7 +264,7 @@ class Session:
             if r.status in (REFUTED, UNDECIDED) and replay is not None:
                 try:
                     rp = replay(r)
-                except Exception as exc:  # replay harness failure is not a verdict
+                except BaseException as exc:  # replay harness failure is not a verdict
                     rp = {"confirmed": False, "error": repr(exc)}
                 if r.status == REFUTED:
                     r.replay = rp
